@@ -1,4 +1,4 @@
-import Bt.Engine.Sec
+import Bt.Engine.Path
 /-
   StrategyBase.update / adjust / allocate / transact / flatten
   (core.py l.667-943, 1031-1041).  Operations on a node return the new subtree,
@@ -179,9 +179,42 @@ def flattenKidsFI (cfg : Cfg α) : List (Node α) → StratData α → Except Er
 def flattenStrat (cfg : Cfg α) (sd : StratData α) (kids : List (Node α)) : Except Err (StratData α × List (Node α)) :=
   if sd.fixedIncome then flattenKidsFI cfg kids sd else flattenKidsMV cfg kids sd
 
-/-- `root.update(date)`: `updNode` plus the root-only bankruptcy step (l.723-727): the flag is set, the
-    tree is flattened and — the totals gathered so far being those of the pre-liquidation tree — the update
-    is redone on the liquidated tree (same date, so no resets; the flag prevents a second trigger). -/
+mutual
+/-- `strategy.flatten()` (l.1031-1050) on the strategy at `path`: sub-strategies flatten their own children
+    first; then every child with a non-zero value is liquidated with `allocate(-value, update=False)`
+    (fixed income: `transact(-position)`), the first `value` read going through the refreshing getter
+    (`rf`, because the sub-strategies' `flatten` left the root stale); finally `stale := true`.
+    The first argument is the shape of the subtree (recursion only; data is read from the world). -/
+def flattenAt (cfg : Cfg α) (rf : World α → Except Err (World α)) : Node α → List Nat → World α → Except Err (World α)
+  | .sec _, _, _ => throw Err.badPath
+  | .strat _ kids, path, w =>
+    (flattenSubs cfg rf kids path 0 w).bind fun w1 =>
+    match w1.root.get? path with
+    | some (.strat sd ks) =>
+      (if !sd.fixedIncome && !ks.isEmpty && w1.stale then rf w1 else pure w1).bind fun w2 =>
+      w2.modify path fun _ n =>
+        match n with
+        | .sec _ => throw Err.badPath
+        | .strat sd2 ks2 => (flattenStrat cfg sd2 ks2).map fun (sd', ks') => (.strat sd' ks', [], true)
+    | _ => throw Err.badPath
+
+def flattenSubs (cfg : Cfg α) (rf : World α → Except Err (World α)) : List (Node α) → List Nat → Nat → World α → Except Err (World α)
+  | [], _, _, w => pure w
+  | k@(.strat _ _) :: ks, path, i, w =>
+    (flattenAt cfg rf k (path ++ [i]) w).bind fun w1 => flattenSubs cfg rf ks path (i + 1) w1
+  | .sec _ :: ks, path, i, w => flattenSubs cfg rf ks path (i + 1) w
+end
+
+/-- the refresh a getter triggers while the root is inside its own bankruptcy step: a plain re-update of
+    the tree (the flag is already set, so no second trigger) -/
+def refreshNB (cfg : Cfg α) (w : World α) : Except Err (World α) :=
+  match w.root.now with
+  | some d => (updNode cfg d w.root).map fun n => { root := n, stale := false }
+  | none => throw Err.badPath
+
+/-- `root.update(date)`: `updNode` plus the root-only bankruptcy step (l.723-732): the flag is set, the
+    whole tree is flattened and — the totals gathered so far being those of the pre-liquidation tree — the
+    update is redone on the liquidated tree (same date, so no resets; the flag prevents a second trigger). -/
 def updRoot (cfg : Cfg α) (d : Nat) (w : World α) : Except Err (World α) :=
   match w.root with
   | .sec _ => throw Err.badPath
@@ -191,8 +224,9 @@ def updRoot (cfg : Cfg α) (d : Nat) (w : World α) : Except Err (World α) :=
     let sd2 : StratData α := { sd1 with capital := sd1.capital + acc.coupons }
     let val := acc.val + acc.coupons
     if val < 0 && !sd2.bankrupt && !sd2.fixedIncome && !(isZero cfg.tol val) then
-      (flattenStrat cfg { sd2 with bankrupt := true } kids1).bind fun (sdF, kidsF) =>
-      (updNode cfg d (.strat sdF kidsF)).map fun n => { root := n, stale := false }
+      let wB : World α := { root := .strat { sd2 with bankrupt := true } kids1, stale := false }
+      (flattenAt cfg (refreshNB cfg) wB.root [] wB).bind fun wF =>
+      (updNode cfg d wF.root).map fun n => { root := n, stale := false }
     else
       (stratWrite cfg d newpt sd2 val acc.notl acc.bo).map fun sd3 =>
       { root := .strat (stratRows d sd3) (kidsWeights cfg sd3.fixedIncome val acc.notl kids1), stale := false }
